@@ -6,7 +6,8 @@ import LoraVerif.Lemmas.Safe
 `MacWF` is what every reachable `MacState` satisfies (proved in `Props/C04.lean`: `init_wf`,
 `step_wf`) and what the no-panic theorems need.  All pieces are decidable (`Bool`).
 
-* plan shape — dynamic: region not fixed, 16 slots, 9-byte mask, the default (join) channels defined;
+* plan shape — dynamic: region not fixed, 16 slots, 9-byte mask, the default (join) channels defined,
+  every defined channel inside the region's band (needed by C09, not for panic-freedom);
   fixed: region fixed, 9-byte masks (plan and `jc.avail`), `preferredSubband ∈ 1..8`;
   (`previousChannel`/`availPrev` need NO bound: the code reduces them mod 72 / to a sub-band itself)
 * `cfg.dataRate` is a data rate the region defines for uplinks (so `datarates()[dr]` is in range and
@@ -24,8 +25,14 @@ def definedSlot (l : List (Option Channel)) (i : Nat) : Bool :=
   | some (some _) => true
   | _ => false
 
+/-- a channel slot is empty or holds an in-band channel -/
+def inBand (r : RegionId) : Option Channel → Bool
+  | some c => frequencyValid r c.freq
+  | none => true
+
 def dynWF (r : RegionId) (p : DynPlan) : Bool :=
-  p.channels.length == 16 && p.mask.length == 9 && (List.range (numJoinChannels r)).all (definedSlot p.channels)
+  p.channels.length == 16 && p.mask.length == 9 && (List.range (numJoinChannels r)).all (definedSlot p.channels) &&
+    p.channels.all (inBand r)
 
 def jcWF (j : JoinChannels) : Bool :=
   j.avail.length == 9 &&
@@ -83,21 +90,35 @@ theorem MacWF.mk {m : MacState} (h1 : regionWF m.region = true) (h2 : cfgWF m.re
 
 theorem dynWF_iff {r : RegionId} {p : DynPlan} :
     dynWF r p = true ↔ p.channels.length = 16 ∧ p.mask.length = 9 ∧
-      ∀ i, i < numJoinChannels r → ∃ c, p.channels[i]? = some (some c) := by
+      (∀ i, i < numJoinChannels r → ∃ c, p.channels[i]? = some (some c)) ∧ p.channels.all (inBand r) = true := by
   unfold dynWF
-  simp only [Bool.and_eq_true, beq_iff_eq, List.all_eq_true, List.mem_range]
+  simp only [Bool.and_eq_true, beq_iff_eq]
   constructor
-  · rintro ⟨⟨h1, h2⟩, h3⟩
-    refine ⟨h1, h2, fun i hi => ?_⟩
-    have := h3 i hi
+  · rintro ⟨⟨⟨h1, h2⟩, h3⟩, h4⟩
+    refine ⟨h1, h2, fun i hi => ?_, h4⟩
+    have := List.all_eq_true.mp h3 i (List.mem_range.mpr hi)
     unfold definedSlot at this
     split at this
     · rename_i c hc; exact ⟨c, hc⟩
     · cases this
-  · rintro ⟨h1, h2, h3⟩
-    refine ⟨⟨h1, h2⟩, fun i hi => ?_⟩
-    obtain ⟨c, hc⟩ := h3 i hi
+  · rintro ⟨h1, h2, h3, h4⟩
+    refine ⟨⟨⟨h1, h2⟩, List.all_eq_true.mpr (fun i hi => ?_)⟩, h4⟩
+    obtain ⟨c, hc⟩ := h3 i (List.mem_range.mp hi)
     unfold definedSlot; rw [hc]
+
+theorem all_set {α} (f : α → Bool) (l : List α) (i : Nat) (x : α) (hl : l.all f = true) (hx : f x = true) :
+    (l.set i x).all f = true := by
+  induction l generalizing i with
+  | nil => simp
+  | cons a rest ih =>
+    simp only [List.all_cons, Bool.and_eq_true] at hl
+    cases i with
+    | zero => simp [hl.2, hx]
+    | succ i => simp [hl.1, ih i hl.2]
+
+theorem all_getElem? {α} (f : α → Bool) (l : List α) (i : Nat) (x : α) (hl : l.all f = true) (hx : l[i]? = some x) :
+    f x = true :=
+  List.all_eq_true.mp hl x (List.mem_of_getElem? hx)
 
 theorem jcWF_iff {j : JoinChannels} :
     jcWF j = true ↔ j.avail.length = 9 ∧ ∀ sb, j.preferredSubband = some sb → 1 ≤ sb ∧ sb ≤ 8 := by
